@@ -34,7 +34,26 @@ FIX = dict(
              'elementwise-normalised-in-order': 'forall(lambda k: %s, 0, len(measurements))' % (_ELEM % 'result')},
 )
 
-CANON = 'sorted(self.model.cliques, key=self.model.domain.size)'
+def _selection_sequence():
+    """The sequence _setup scans for the first clique containing a measurement, read from the tree under verification and
+    rewritten over `self` (its locals `cliques` / `model` alias self.model.cliques / self.model at that point).  _lipschitz
+    must scan the same sequence: the clause is relational, it does not prescribe a particular order."""
+    import ast, re
+    from .. import frontend
+    try:
+        fn, _, _ = frontend.get_function(REL, 'FactoredInference._setup')
+        for n in ast.walk(fn):
+            if isinstance(n, ast.For) and any(isinstance(b, ast.If) and 'groups' in ast.unparse(b) for b in n.body) and 'measurements' not in ast.unparse(n.iter):
+                src = ast.unparse(n.iter)
+                src = re.sub(r'(?<![\w.])cliques(?![\w])', 'self.model.cliques', src)
+                src = re.sub(r'(?<![\w.])model(?![\w])', 'self.model', src)
+                return src
+    except Exception:
+        pass
+    return 'sorted(self.model.cliques, key=self.model.domain.size)'
+
+
+CANON = _selection_sequence()
 PURE = {'sorted': 'seq:obj', 'set': 'obj', 'GraphicalModel': 'obj:GraphicalModel', 'defaultdict': 'obj', 'aslinearoperator': 'obj',
         'eigsh': 'obj', 'np.dtype': 'obj', '.size': 'obj'}
 ATTR = {('GraphicalModel', 'cliques'): 'obj:list', ('GraphicalModel', 'domain'): 'obj:Domain', ('FactoredInference', 'model'): 'obj:GraphicalModel',
